@@ -73,6 +73,8 @@ Proof.
   - constructor.
   - assumption.
   - destruct (is_conn (cs s)); simpl; assumption.
+  - unfold only_frames, purge in *. apply Forall_forall. intros x Hx.
+    apply filter_In in Hx as [Hx _]. rewrite Forall_forall in H. now apply H.
 Qed.
 
 (** The connection state of the model is the one the last life-cycle operation decides. *)
@@ -84,6 +86,7 @@ Proof.
   - reflexivity.
   - reflexivity.
   - destruct (is_conn (cs s)); reflexivity.
+  - reflexivity.
 Qed.
 
 Local Opaque frames emit_ids.
@@ -102,6 +105,7 @@ Proof.
   - auto.
   - discriminate.
   - destruct (is_conn (cs s)) eqn:C; simpl; rewrite ?C; auto; discriminate.
+  - intros C. destruct (H C) as [E1 E2]. rewrite E1. auto.
 Qed.
 
 (** The CONNECT reply hands over exactly the parked frames, in order (acks around them). *)
@@ -112,32 +116,96 @@ Proof.
   - now rewrite !efr_app, efr_noacks, efr_acks_of, efr_replay, app_nil_r.
 Qed.
 
-(** Main invariant, send side: what has been handed to the manager so far, followed by what is
-    still parked, is exactly the entitled frames in emission order. *)
-Lemma run_frames : forall h s, wf s ->
-  efr (fst (run s h)) ++ efr (sendBuf (snd (run s h))) = efr (sendBuf s) ++ entitled (cs s) h.
+(** The parked frames that will still be there at the next CONNECT reply of [h]: those whose ack
+    time-out does not expire before it. *)
+Definition survives (h : list op) (o : out) : bool :=
+  match o with OFrame _ _ (Some a) => negb (times_out_before_reply a h) | _ => true end.
+Definition live (h : list op) (sb : list out) : list out := filter (survives h) sb.
+
+Lemma live_same : forall o h sb,
+  (forall a, times_out_before_reply a (o :: h) = times_out_before_reply a h) ->
+  live (o :: h) sb = live h sb.
 Proof.
-  induction h as [|o h IH]; intros s Hwf; simpl.
-  - now rewrite app_nil_r.
+  intros o h sb H. unfold live. apply filter_ext. intros x. unfold survives.
+  destruct x as [| l i [a|] | |]; try reflexivity. now rewrite H.
+Qed.
+
+Lemma live_reply : forall h sb, live (ConnectReply :: h) sb = sb.
+Proof.
+  intros h sb. unfold live. induction sb as [|x sb IH]; simpl; [reflexivity|].
+  replace (survives (ConnectReply :: h) x) with true; [now rewrite IH|].
+  destruct x as [| l i [a|] | |]; reflexivity.
+Qed.
+
+Lemma live_purge : forall b h sb, live h (purge b sb) = live (Timeout b :: h) sb.
+Proof.
+  intros b h sb. unfold live, purge. induction sb as [|x sb IH]; simpl; [reflexivity|].
+  destruct x as [| l i [a|] | |]; simpl; rewrite ?IH; try reflexivity.
+  rewrite (N.eqb_sym b a). destruct (N.eqb a b); simpl; rewrite ?IH; reflexivity.
+Qed.
+
+Local Transparent frames emit_ids.
+Lemma efr_live_frames : forall h l ack att,
+  efr (live h (frames l ack att)) =
+  if match ack with Some a => times_out_before_reply a h | None => false end then [] else emit_ids l att.
+Proof.
+  intros h l ack att. unfold live, frames, emit_ids. generalize (seq 0 (S att)).
+  destruct ack as [a|]; simpl.
+  - induction l0 as [|i l0 IH]; simpl.
+    + now destruct (times_out_before_reply a h).
+    + destruct (times_out_before_reply a h); simpl in *; now rewrite IH.
+  - induction l0 as [|i l0 IH]; simpl; auto. now rewrite IH.
+Qed.
+Local Opaque frames emit_ids.
+
+Lemma live_app : forall h a b, live h (a ++ b) = live h a ++ live h b.
+Proof. intros. unfold live. apply filter_app. Qed.
+
+(** Main invariant, send side: what has been handed to the manager so far, followed by what is
+    still parked, is exactly: the frames parked at the start that do not time out before the next
+    reply, followed by the entitled frames of the history, in emission order. *)
+Lemma run_frames : forall h s, wf s ->
+  efr (fst (run s h)) ++ efr (sendBuf (snd (run s h)))
+  = efr (live h (sendBuf s)) ++ entitled (cs s) (ackctr s) h.
+Proof.
+  induction h as [|o h IH]; intros s Hwf.
+  - simpl. unfold live. rewrite app_nil_r. f_equal. symmetry.
+    induction (sendBuf s) as [|x sb IHsb]; simpl; [reflexivity|].
+    replace (survives [] x) with true; [now rewrite IHsb|]. destruct x as [| l i [a|] | |]; reflexivity.
   - pose proof (step_cs s o) as Hcs. pose proof (step_wf s o Hwf) as Hwf1.
     specialize (IH (snd (step s o)) Hwf1).
-    destruct (step s o) as [o1 s1] eqn:Es. simpl in *.
-    destruct (run s1 h) as [o2 s2]. simpl in *.
-    rewrite efr_app, <- app_assoc, IH, Hcs. rewrite !app_assoc. f_equal.
-    destruct o; simpl in Es.
-    + destruct (is_conn (cs s)) eqn:C; simpl in Es |- *.
-      * rewrite (proj1 (Hwf C)) in Es |- *. simpl in Es.
-        inversion Es; subst; simpl. now rewrite efr_frames, app_nil_r.
-      * destruct (negb volatile); inversion Es; subst; simpl;
-          rewrite ?efr_app, ?efr_frames, ?app_nil_r; reflexivity.
-    + destruct (is_pending (cs s)); inversion Es; subst; simpl; now rewrite app_nil_r.
-    + inversion Es; subst; simpl. rewrite app_nil_r.
-      destruct (sendBuf s); simpl nilb; cbv iota.
-      * now rewrite efr_replay.
-      * now rewrite !efr_app, efr_noacks, efr_acks_of, efr_replay, app_nil_r.
-    + inversion Es; subst; simpl. now rewrite app_nil_r.
-    + destruct (is_conn (cs s)); inversion Es; subst; simpl;
-        rewrite ?efr_call_now, ?app_nil_r; reflexivity.
+    cbn [run]. destruct (step s o) as [o1 s1] eqn:Es. cbn [snd fst] in *.
+    destruct (run s1 h) as [o2 s2]. cbn [snd fst] in *.
+    rewrite efr_app, <- app_assoc, IH. clear IH.
+    destruct o; cbn [step] in Es.
+    + (* Emit *)
+      destruct (is_conn (cs s)) eqn:C.
+      * rewrite (proj1 (Hwf C)) in Es |- *. cbn in Es. inversion Es; subst. cbn [sendBuf cs ackctr entitled].
+        rewrite C. unfold live at 1 2. cbn [filter efr]. rewrite efr_frames. reflexivity.
+      * cbn [andb] in Es. cbn [entitled]. rewrite C.
+        rewrite (live_same (Emit label volatile withAck att) h) by reflexivity.
+        destruct volatile; cbn [negb andb] in Es |- *; inversion Es; subst; cbn [sendBuf cs ackctr efr app].
+        -- reflexivity.
+        -- rewrite live_app, efr_app, efr_live_frames, <- app_assoc. f_equal.
+           destruct withAck; cbn [andb negb]; [destruct (times_out_before_reply (ackctr s) h)|]; reflexivity.
+    + (* MgrOpen *)
+      rewrite (live_same MgrOpen h) by reflexivity. cbn [entitled]. rewrite <- Hcs.
+      destruct (is_pending (cs s)); inversion Es; subst; reflexivity.
+    + (* ConnectReply *)
+      rewrite live_reply. cbn [entitled lifecycle].
+      assert (E1 : efr o1 = efr (sendBuf s)).
+      { replace o1 with (fst (step s ConnectReply)) by (cbn [step]; rewrite Es; reflexivity). apply efr_reply_out. }
+      rewrite E1. inversion Es; subst. cbn [sendBuf cs ackctr]. unfold live. cbn [filter efr app]. reflexivity.
+    + (* Close *)
+      rewrite (live_same Close h) by reflexivity. cbn [entitled lifecycle].
+      inversion Es; subst. reflexivity.
+    + (* Recv *)
+      rewrite (live_same (Recv label id hs) h) by reflexivity. cbn [entitled lifecycle].
+      destruct (is_conn (cs s)); inversion Es; subst; cbn [sendBuf cs ackctr];
+        rewrite ?efr_call_now; reflexivity.
+    + (* Timeout *)
+      cbn [entitled lifecycle]. inversion Es; subst. cbn [sendBuf cs ackctr efr app].
+      now rewrite live_purge.
 Qed.
 
 (** Right after a CONNECT reply nothing is parked any more. *)
@@ -156,29 +224,30 @@ Lemma offline_emit_silent : forall s l vol ack att,
 Proof. intros s l vol ack att H. simpl. rewrite H. simpl. destruct (negb vol); reflexivity. Qed.
 
 (** The parked frames are exactly the non-volatile emits made since the last CONNECT reply while
-    not connected; the reply hands them over in that order. *)
+    not connected, minus the packets whose time-out expired; the reply hands them over in that order. *)
 Lemma run_pending : forall h s, wf s ->
-  efr (sendBuf (snd (run s h))) = offline_pending (cs s) (efr (sendBuf s)) h.
+  sendBuf (snd (run s h)) = offline_pending (cs s) (ackctr s) (sendBuf s) h.
 Proof.
-  induction h as [|o h IH]; intros s Hwf; simpl; [reflexivity|].
+  induction h as [|o h IH]; intros s Hwf; [reflexivity|].
   pose proof (step_cs s o) as Hcs. specialize (IH (snd (step s o)) (step_wf s o Hwf)).
-  destruct (step s o) as [o1 s1] eqn:Es. simpl in *.
-  destruct (run s1 h) as [o2 s2]. simpl in *. rewrite IH, Hcs. f_equal.
-  destruct o; simpl in Es.
-  - destruct (is_conn (cs s)) eqn:C; simpl in Es |- *.
-    + rewrite (proj1 (Hwf C)) in Es. simpl in Es. inversion Es; subst. simpl.
-      now rewrite (proj1 (Hwf C)).
-    + destruct (negb volatile); inversion Es; subst; simpl; rewrite ?efr_app, ?efr_frames; reflexivity.
-  - destruct (is_pending (cs s)); inversion Es; reflexivity.
-  - inversion Es; reflexivity.
-  - inversion Es; reflexivity.
-  - destruct (is_conn (cs s)); inversion Es; reflexivity.
+  cbn [run]. destruct (step s o) as [o1 s1] eqn:Es. cbn [snd fst] in *.
+  destruct (run s1 h) as [o2 s2]. cbn [snd fst] in *. rewrite IH. clear IH.
+  destruct o; cbn [step] in Es; cbn [offline_pending].
+  - destruct (is_conn (cs s)) eqn:C.
+    + rewrite (proj1 (Hwf C)) in Es |- *. cbn in Es. inversion Es; subst. cbn [sendBuf cs ackctr]. reflexivity.
+    + cbn [andb negb] in Es |- *. destruct volatile; cbn [negb] in Es |- *; inversion Es; subst;
+        cbn [sendBuf cs ackctr]; rewrite ?C; cbn [negb andb]; rewrite ?andb_false_r; reflexivity.
+  - rewrite <- Hcs. destruct (is_pending (cs s)); inversion Es; subst; reflexivity.
+  - inversion Es; subst. reflexivity.
+  - inversion Es; subst. reflexivity.
+  - cbn [lifecycle]. destruct (is_conn (cs s)); inversion Es; subst; reflexivity.
+  - inversion Es; subst. reflexivity.
 Qed.
 
 Lemma reply_hands_over_pending : forall h,
-  efr (fst (step (snd (run init h)) ConnectReply)) = offline_pending Disconnected [] h.
+  efr (fst (step (snd (run init h)) ConnectReply)) = efr (offline_pending Disconnected 0 [] h).
 Proof.
-  intros h. rewrite efr_reply_out.
+  intros h. rewrite efr_reply_out. f_equal.
   apply (run_pending h init). unfold wf, init; simpl; discriminate.
 Qed.
 
@@ -237,6 +306,7 @@ Proof.
       * unfold parked_calls at 1. rewrite map_app. fold (parked_calls (recvBuf s)).
         change (map (fun '(l, _, _, i) => (l, i)) ?x) with (parked_calls x).
         rewrite parked_calls_new. now rewrite <- app_assoc.
+    + inversion Es; subst; reflexivity.
 Qed.
 
 (** Top-level forms (from the initial state). *)
@@ -244,11 +314,11 @@ Lemma init_wf : wf init.
 Proof. unfold wf, init; simpl; discriminate. Qed.
 
 Lemma offline_exactly_once_in_order : forall h,
-  efr (fst (run init h)) ++ efr (sendBuf (snd (run init h))) = entitled Disconnected h.
+  efr (fst (run init h)) ++ efr (sendBuf (snd (run init h))) = entitled Disconnected 0 h.
 Proof. intros h. exact (run_frames h init init_wf). Qed.
 
 Lemma delivered_after_reply : forall h,
-  efr (fst (run init (h ++ [ConnectReply]))) = entitled Disconnected (h ++ [ConnectReply]).
+  efr (fst (run init (h ++ [ConnectReply]))) = entitled Disconnected 0 (h ++ [ConnectReply]).
 Proof.
   intros h. pose proof (offline_exactly_once_in_order (h ++ [ConnectReply])) as H.
   rewrite (proj1 (reply_flushes h init)) in H. simpl in H. now rewrite app_nil_r in H.
@@ -268,22 +338,44 @@ Fixpoint emit_labels (h : list op) : list N :=
   | _ :: h' => emit_labels h'
   end.
 
-Lemma entitled_app : forall h1 h2 c,
-  entitled c (h1 ++ h2) = entitled c h1 ++ entitled (state_after c h1) h2.
+(** Labels of the emits that are made while connected or are not volatile. *)
+Fixpoint ok_labels (c : cstate) (h : list op) : list N :=
+  match h with
+  | [] => []
+  | Emit l vol _ _ :: h' => (if is_conn c || negb vol then [l] else []) ++ ok_labels c h'
+  | o :: h' => ok_labels (lifecycle c o) h'
+  end.
+
+Lemma ok_labels_app : forall h1 h2 c,
+  ok_labels c (h1 ++ h2) = ok_labels c h1 ++ ok_labels (state_after c h1) h2.
 Proof.
-  induction h1 as [|o h1 IH]; intros h2 c; simpl; [reflexivity|].
-  now rewrite IH, app_assoc.
+  induction h1 as [|o h1 IH]; intros h2 c; [reflexivity|].
+  destruct o; cbn [app ok_labels state_after fold_left lifecycle]; rewrite IH; try reflexivity.
+  now rewrite app_assoc.
+Qed.
+
+Lemma ok_labels_emit : forall h c l, In l (ok_labels c h) -> In l (emit_labels h).
+Proof.
+  induction h as [|o h IH]; intros c l Hin; [contradiction|].
+  destruct o; cbn [ok_labels emit_labels] in *; eauto.
+  apply in_app_or in Hin as [Hin|Hin].
+  - destruct (is_conn c || negb volatile); [|contradiction]. destruct Hin as [<-|[]]. now left.
+  - right. eauto.
 Qed.
 
 Local Transparent emit_ids.
-Lemma entitled_labels : forall h c l i, In (l, i) (entitled c h) -> In l (emit_labels h).
+Lemma entitled_labels : forall h c k l i, In (l, i) (entitled c k h) -> In l (ok_labels c h).
 Proof.
-  induction h as [|o h IH]; intros c l i Hin; simpl in *; [contradiction|].
-  apply in_app_or in Hin as [Hin|Hin].
-  - destruct o; try contradiction.
-    destruct (is_conn c || negb volatile); [|contradiction].
-    unfold emit_ids in Hin. apply in_map_iff in Hin as (j & E & _). inversion E; subst. now left.
-  - specialize (IH _ _ _ Hin). destruct o; auto. now right.
+  induction h as [|o h IH]; intros c k l i Hin; [contradiction|].
+  destruct o; cbn [entitled ok_labels] in *; eauto.
+  apply in_app_or in Hin as [Hin|Hin]; apply in_or_app.
+  - left. assert (Hl : In (l, i) (emit_ids label att) -> label = l).
+    { unfold emit_ids. intros H. apply in_map_iff in H as (j & E & _). now inversion E. }
+    destruct (is_conn c) eqn:C; simpl.
+    + left. now apply Hl.
+    + destruct volatile; simpl in *; [contradiction|].
+      destruct (negb (withAck && times_out_before_reply k h)); [|contradiction]. left. now apply Hl.
+  - right. eauto.
 Qed.
 Local Opaque emit_ids.
 
@@ -294,10 +386,11 @@ Lemma volatile_offline_never_sent : forall h1 h2 l ack att i,
 Proof.
   intros h1 h2 l ack att i Hc H1 H2 Hin.
   pose proof (offline_exactly_once_in_order (h1 ++ Emit l true ack att :: h2)) as E.
-  assert (Hin' : In (l, i) (entitled Disconnected (h1 ++ Emit l true ack att :: h2))).
+  assert (Hin' : In (l, i) (entitled Disconnected 0 (h1 ++ Emit l true ack att :: h2))).
   { rewrite <- E. apply in_or_app. now left. }
-  rewrite entitled_app in Hin'. apply in_app_or in Hin' as [Hin'|Hin'].
-  - apply entitled_labels in Hin'. contradiction.
-  - simpl in Hin'. rewrite Hc in Hin'. simpl in Hin'.
-    apply entitled_labels in Hin'. contradiction.
+  apply entitled_labels in Hin'. rewrite ok_labels_app in Hin'.
+  apply in_app_or in Hin' as [Hin'|Hin'].
+  - apply ok_labels_emit in Hin'. contradiction.
+  - cbn [ok_labels] in Hin'. rewrite Hc in Hin'. simpl in Hin'.
+    apply ok_labels_emit in Hin'. contradiction.
 Qed.
